@@ -3,6 +3,7 @@ peer (full or lite driver on either end) on one simulated medium."""
 from vsim import world as W
 from vsim.rig import Rig, repo
 
+PP_ADDR = b"\xD7\x31\x41\x59\x26"
 PIPE_ADDRS = [b"\xA0\x11\x22\x33\x44", b"\xB1\x55\x66\x77\x88", b"\xB2", b"\xB3", b"\xB4", b"\xB5"]
 
 
@@ -84,6 +85,10 @@ class Pair:
         configure(self.rx, rx_kind, case)
         for i in range(6):
             self.rx.open_rx_pipe(i, PIPE_ADDRS[i])
+        if case.get("pingpong"):
+            # the receiver also has a TX address of its own (it answers later): set before listening
+            self.rx.open_tx_pipe(PP_ADDR)
+            self.tx.open_rx_pipe(1, PP_ADDR)
         self.rx.listen = True
         self.tx.open_tx_pipe(full_addr(case["pipe"])[: case["aw"]] if case.get("short_addr")
                              else full_addr(case["pipe"]))
